@@ -278,7 +278,7 @@ FINDINGS = [
             W(2, "flat", "b 0 0 0 int sum"), "for an empty message the Intel table selects allreduce__ompi_ring_segmented, "
             "which divides by zero", via="allreduce/ompi_ring_segmented"),
     Finding("allreduce/impi", "np=nonpow2:selects-rab1:abort", P("not pow2 and c > 0"), {CRASH},
-            W(3, "flat", "b 0 0 4099 int sum"), "the Intel table selects allreduce__rab1 whatever the communicator size; rab1 "
+            W(6, "blk2", "b 0 0 4099 int sum"), "the Intel table selects allreduce__rab1 whatever the communicator size; rab1 "
             "throws 'can't be used with non power of two number of processes'", via="allreduce/rab1"),
     Finding("allreduce/impi", "dt=holes:selects-rab1:stray-write", P("holes and c > 0 and np > 1 and pow2"), {STRAY},
             W(8, "blk4", "ip 0 0 4099 vec user"), "the Intel table selects allreduce__rab1, which copies whole extents over the "
@@ -287,7 +287,7 @@ FINDINGS = [
             W(1, "flat", "b 0 0 8200 dbl max"), "for 64 kB <= message < 128 kB the selector uses reduce_scatter__ompi_butterfly, "
             "which leaves the receive buffer untouched on a communicator of one rank", via="reduce_scatter/ompi_butterfly"),
     Finding("bcast/impi", "one-rank-per-host:selects-SMP_linear", P("K == 1 and np > 1"), {CRASH, DEAD, WRONG, STRAY, ERR},
-            W(2, "flat", "b 0 0 1 int none", "b 1 0 1 int none"), "the Intel table selects bcast__SMP_linear, which is wrong "
+            W(8, "flat", "b 0 0 1 int none", "b 1 0 1 int none"), "the Intel table selects bcast__SMP_linear, which is wrong "
             "with one rank per host", via="bcast/SMP_linear"),
     Finding("reduce_scatter/ompi reduce_scatter/impi reduce_scatter/mvapich2", "zero-recvcount:selects-recursivehalving:wrong-result",
             P("np > 1 and total > 0 and min(cnts) == 0"), {WRONG, CRASH, DEAD},
